@@ -57,7 +57,7 @@ def p_raw(tpl, delim, comment, optmode, follow=("FOLLOW_LIST",), timeout=600, ex
     for f in follow: d[f] = None
     if exact: d["ALLOC_EXACT"] = None
     E = max(lines, 1) + (1 if "FOLLOW_MERGE" in follow else 0)
-    uw = lib_unwinds(E * 2, lines + 2, lines=lines + 1, alloc=max(E * 2, 9 if "FOLLOW_MERGE" in follow else 0)) + [(r"p_raw\.c", r"MAXE|which < 2|i < L", max(lines, n) + 2), (r"mergefiles\.c", r"uf->length|ef->length|added_keys", 2 * E + 2),
+    uw = lib_unwinds(E * (2 if "FOLLOW_MERGE" in follow else 1), lines + 2, lines=lines + 1, alloc=max(E * 2, 9 if "FOLLOW_MERGE" in follow else 0)) + [(r"p_raw\.c", r"MAXE|which < 2|i < L", max(lines, n) + 2), (r"mergefiles\.c", r"uf->length|ef->length|added_keys", 2 * E + 2),
          (r"libeconf_ext\.c", r"strsep", lines + 3), (r"builtin-library-strncpy", r"", 18), (r"libeconf\.c", r"strsep", lines + 3), (r"vfs_cbmc\.c", r"k < VFS_CONTENT", d["VFS_CONTENT"] + 2)]
     return Instance("raw-%s-%s-%s-o%d%s-%s" % (tpl or "empty", delim, comment, optmode, "-x" if exact else "", "+".join(f[7:].lower() for f in follow)), "p_raw.c", d, unwind=cap + 1, unwindset=uw,
                     timeout=timeout, mem_gb=mem, leak_check=True,
@@ -250,9 +250,12 @@ def c11(tier):
 
 def c10(tier):
     insts = step_insts(1, tier, 3 if tier == "quick" else 4)
+    # econf_mergeFiles as a read-only user of its two inputs (inputs compared with their snapshots)
+    for nb, no, gb, go in ((1, 1, "0", "0"), (1, 1, "1", "1"), (2, 1, "01", "1"), (1, 2, "1", "01"), (2, 2, "11", "11"), (2, 2, "01", "01")):
+        insts.append(m_inst(nb, no, gb=gb, go=go))
     return {"instances": insts, "assumptions": COMMON_ASSUME + [
         "one read-only call from an arbitrary valid state preserves the whole state; sequences follow by induction",
-        "econf_writeFile and econf_mergeFiles as read-only users are covered by the C07 and C03 harnesses (inputs compared with their snapshots there)"],
+        "econf_mergeFiles as a read-only user: merge instances with the inputs compared with their snapshots (more under C03); econf_writeFile as a read-only user is covered by the C07 harnesses (the object is compared after the write)"],
         "explanation": "frame property of every read-only API call, decided by bounded model checking from an arbitrary valid state"}
 
 import convgen
@@ -263,7 +266,7 @@ def conv_inst(name, L, opts="", defs=(), timeout=600, functions=None, keep=None,
     n = len(L.tpl)
     # longest string the parser can build: a value with its continuation lines (<= longest 3 lines joined) or "(null)\n" + a line
     linelens = sorted((len(x) for x in L.tpl.split("\n")), reverse=True)
-    cap = max(min(n + 3, sum(linelens[:3]) + 10), 9)
+    cap = max(min(n + 3, sum(linelens[:3]) + 10), 9, len(opts) + 2)
     rt = "ROUNDTRIP" in defs
     clen = len(L.canon()) if rt else 0
     if rt: cap = max(cap, min(clen + 3, sum(linelens[:3]) + 14))
@@ -324,7 +327,7 @@ def c02(tier):
 NAMESETS = {"A": ["9.conf", "x.con", "10.conf"], "B": ["a.conf", ".conf", "B.conf"], "C": ["9.conf", "a.conf", ".h.conf"]}
 ENTRYNAMES = ["readDirsHistory", "readDirsHistoryWithCallback", "readDirs", "readDirsWithCallback", "readConfig", "readConfigWithCallback"]
 
-def d_inst(entry, layers, nameset, fullpat, suffix="conf", faults=0, timeout=150, keysel=None, failfile=-1, failkind=1):
+def d_inst(entry, layers, nameset, fullpat, suffix="conf", faults=0, timeout=150, keysel=None, failfile=-1, failkind=1, rootmode=False, confopt=False):
     """fullpat: list per layer of [main present, dropin dir present, presence per candidate...]"""
     pattern = [row[2:] for row in fullpat]
     mainp = [row[0] for row in fullpat]; dirp = [row[1] for row in fullpat]
@@ -348,21 +351,26 @@ def d_inst(entry, layers, nameset, fullpat, suffix="conf", faults=0, timeout=150
         keysel = "".join(random.Random(zlib.crc32(str(fullpat).encode())).choice("12") for _ in range(nfiles0))
     hdr += 'static const char KEYSEL[] = "%s";\n#define FAILFILE %d\n#define FAILKIND %d\n' % (keysel, failfile, failkind)
     ldirs = ["/u", "/e"] if layers == 2 else ["/u", "/r", "/e"]
+    if rootmode:
+        ldirs = ["/R//usr/p", "/R//run/p", "/R//etc/p"]
+        pre = ["/R", "/R//usr", "/R//run", "/R//etc"]
+        hdr += "#define ROOTMODE 1\n#define NPREDIRS %d\nstatic const char *PREDIRS[] = {%s};\nstatic const char *LAYERDIR[] = {%s};\n" % (len(pre), ",".join('"%s"' % x for x in pre), ",".join('"%s"' % x for x in ldirs))
+    if confopt: hdr += "#define CONFOPT 1\n"
     mains = [d + "/c" + sufdot for d in ldirs]
     hdr += "static const char *MAINPATH[LAYERS] = {%s};\nstatic const char *DDPATH[LAYERS] = {%s};\nstatic const char *FPATH[LAYERS][NF] = {%s};\n" % (
         ",".join('"%s"' % m for m in mains), ",".join('"%s.d"' % m for m in mains),
         ",".join("{%s}" % ",".join('"%s.d/%s"' % (m, n) for n in names) for m in mains))
     pat = "_".join("".join(str(b) for b in row) for row in fullpat)
     nfiles = layers * (nf + 1)
-    d = {"STRCAP": 40, "VCAP": max(nfiles + 2, 6), "VFS_MAXNODES": layers * (nf + 3) + 1, "VFS_CONTENT": 10, "VFS_MAXEV": 48, "CALLOC_N": max(nfiles + 2, 6)}
-    name = "d-%s-L%d-%s-%s-suf%s%s" % (ENTRYNAMES[entry], layers, nameset, pat, ("NULL" if suffix is None else "empty" if suffix == "" else suffix.replace(".", "dot")), ("-fail%d%s" % (failfile, "xrpo"[failkind])) if faults else "")
+    d = {"STRCAP": 56 if confopt else 40, "VCAP": max(nfiles + 2, 6), "VFS_MAXNODES": layers * (nf + 3) + 6, "VFS_CONTENT": 10, "V_PATH_MAX": 48, "VFS_MAXEV": 48, "CALLOC_N": max(nfiles + 2, 6)}
+    name = "d-%s-L%d-%s-%s-suf%s%s" % (ENTRYNAMES[entry], layers, nameset, pat, ("NULL" if suffix is None else "empty" if suffix == "" else suffix.replace(".", "dot")), (("-fail%d%s" % (failfile, "xrpo"[failkind])) if faults else "") + ("-rootprefix" if rootmode else "") + ("-confdirs" if confopt else ""))
     uw = lib_unwinds(nfiles * 2 + 2, 3, alloc=nfiles * 2 + 2) + [
         (r"readconfig\.c", r"for \(int i = parse_dirs_count", layers + 1), (r"readconfig\.c", r"i < parse_dirs_count", layers + 1), (r"readconfig\.c", r"i < conf_count", 2),
         (r"readconfig\.c", r"k < \*size-1", nfiles + 1), (r"mergefiles\.c", r"i < num_dirs", nf + 3), (r"mergefiles\.c", r"k < num_dirs", nf + 3),
         (r"mergefiles\.c", r"while \(config_dirs\[i\]", 3), (r"mergefiles\.c", r"while\(\*key_files\)", nfiles + 1), (r"mergefiles\.c", r"while \(\*double_key_files\)", nfiles + 1),
         (r"d_hist\.c", r"s < MAXFILES|s < nseq|t < nseq|i < nfi|l < nl|c < NF|oc < NF|a < NF|b >= 0|l >= 0", nfiles + 2),
-        (r"vfs_cbmc\.c", r"i < vfs_n|t < vfs_n|s < 2|i < cnt|j >= 0|p >= 0", layers * (nf + 3) + 3), (r"libeconf\.c", r"strsep\(&in_entry", layers + 2), (r"libeconf\.c", r"strsep\(&in_opt", 3)]
-    return Instance(name, "d_hist.c", d, unwind=41, unwindset=uw, timeout=timeout, mem_gb=8, leak_check=True, gen_files={"layout.h": hdr},
+        (r"vfs_cbmc\.c", r"i < vfs_n|t < vfs_n|s < 2|i < cnt|j >= 0|p >= 0", layers * (nf + 3) + 9), (r"libeconf\.c", r"strsep\(&in_entry", layers + 2), (r"libeconf\.c", r"strsep\(&in_opt", 3)]
+    return Instance(name, "d_hist.c", d, unwind=57 if confopt else 41, unwindset=uw, timeout=timeout, mem_gb=8, leak_check=True, gen_files={"layout.h": hdr},
                     flags=["--max-field-sensitivity-array-size", "300"],
                     functions="econf_%s, readConfigWithCallback, readConfigHistoryWithCallback, traverse_conf_dirs, check_conf_dir, merge_econf_files, econf_mergeFiles (+ contract of read_file_with_callback)" % ENTRYNAMES[entry],
                     bounds="%d layers; concrete pattern per layer [main file: 0 none/1 with content/2 empty/3 link to /dev/null, drop-in dir exists, presence of each candidate of %s] = %s; every file defines one key (k1 or k2, concrete per instance) with a symbolic value; suffix argument %r; %s"
@@ -432,6 +440,12 @@ def c06(tier):
         layers = 2 if entry < 4 else 3
         for pi, pat in enumerate(d_patterns(layers, 3, 3 if tier == "quick" else 16, rng)):
             insts.append(d_inst(entry, layers, "A", pat, keysel="first-unique" if pi < 5 else None))
+    full3 = [[1, 1, 1, 0, 1], [1, 1, 1, 1, 0], [0, 1, 0, 1, 1]]
+    insts.append(d_inst(5, 3, "A", full3, confopt=True))
+    insts.append(d_inst(5, 3, "A", full3, rootmode=True))
+    for ff in consulted(3, "A", full3)[1:3]:
+        insts.append(d_inst(5, 3, "A", full3, confopt=True, faults=1, failfile=ff, failkind=1))
+        insts.append(d_inst(5, 3, "A", full3, rootmode=True, faults=1, failfile=ff, failkind=1))
     return {"instances": insts, "assumptions": COMMON_ASSUME + D_ASSUME, "explanation": "callback consulted for every file before use, in order, with unchanged data pointer; one rejection yields nothing (reader harness + layered-read harness with an injected rejection)"}
 
 def c16(tier):
@@ -469,6 +483,10 @@ def c01(tier):
         for entry, layers, ns, n in ((3, 2, "A", 6), (5, 3, "A", 5), (2, 2, "B", 3), (4, 3, "C", 3), (1, 2, "A", 3)):
             for pi, pat in enumerate(d_patterns(layers, 3, n, rng)):
                 insts.append(d_inst(entry, layers, ns, pat, keysel="first-unique" if pi < 5 else None))
+        for pat in d_patterns(3, 3, 3, rng)[:2] + [[[1, 1, 1, 0, 1], [1, 1, 1, 1, 0], [0, 1, 0, 1, 1]]]:
+            insts.append(d_inst(5, 3, "A", pat, rootmode=True))
+        insts.append(d_inst(4, 3, "A", [[1, 1, 0, 1, 1], [0, 1, 1, 0, 1], [1, 1, 1, 0, 0]], rootmode=True))
+        insts.append(d_inst(5, 3, "A", [[1, 1, 1, 0, 1], [1, 1, 1, 1, 0], [0, 1, 0, 1, 1]], confopt=True))
         insts.append(d_inst(3, 2, "A", [[1, 1, 1, 1, 1], [0, 1, 1, 1, 0]], suffix=".conf"))
         insts.append(d_inst(3, 2, "B", [[0, 1, 1, 1, 1], [1, 1, 1, 0, 1]], suffix=None))
         insts.append(d_inst(5, 3, "B", [[1, 1, 1, 1, 1], [0, 1, 0, 1, 1], [0, 0, 1, 0, 0]], suffix=""))
@@ -481,6 +499,13 @@ def c01(tier):
             for suf in (".conf", None, ""):
                 for pat in d_patterns(layers, 3, 6, rng):
                     insts.append(d_inst(entry, layers, "B", pat, suffix=suf, timeout=600))
+            if entry >= 4:
+                for pat in d_patterns(3, 3, 24, rng):
+                    insts.append(d_inst(entry, 3, "A", pat, rootmode=True, timeout=600))
+                    insts.append(d_inst(entry, 3, "C", pat, confopt=True, timeout=600))
+    insts.append(small("null-names", "n_null.c", {"STRCAP": 24, "VCAP": 6, "VFS_MAXNODES": 4, "CALLOC_N": 6}, E=2, G=2, unwind=25, timeout=300,
+                       extra_uw=[(r"readconfig\.c", r"parse_dirs_count", 4), (r"mergefiles\.c", r"config_dirs\[i\]", 3)],
+                       functions="all six layered-read entry points with NULL / empty configuration name and NULL project", bounds="entry point, suffix NULL or given, name NULL or empty: symbolic", flags=["--max-field-sensitivity-array-size", "300"]))
     return {"instances": insts, "assumptions": COMMON_ASSUME + [
         "decomposition (DESIGN.md 5.3): read_file_with_callback is replaced by its contract in the CBMC query (established for the real reader by the C06/C16 reader harness); parsing and pairwise merging semantics come from C02/C03; the native replay of every witness runs the real reader and parser on a real directory tree",
         "drop-in presence patterns are concrete per instance (enumerated / sampled by VERIF_SEED); main-file states and drop-in directory presence are symbolic",
@@ -750,6 +775,10 @@ def c20(tier):
     insts = fault_insts(tier, range(6), (1, 2, 3), seed, 1 if tier == "quick" else 6)
     insts += [r_inst(1), r_inst(0, expect=["restrictions lifted by reset"])]
     insts += step_insts(0, "quick", 2)[:8]
+    for entry in range(6):      # successful reads with masked drop-ins: intermediates and masked files released
+        layers = 2 if entry < 4 else 3
+        insts.append(d_inst(entry, layers, "A", [[1] * 5] * layers))
+        insts.append(d_inst(entry, layers, "A", [[0, 1, 1, 0, 1]] + [[1, 1, 1, 0, 1]] * (layers - 1)))
     return {"instances": insts, "assumptions": COMMON_ASSUME + D_ASSUME + ["leak check: CBMC --memory-leak-check (tracks one nondeterministically chosen allocation, i.e. every allocation) on all harnesses; double free / use after free by the built-in pointer checks",
             "uninitialised reads: fresh heap memory has arbitrary contents in CBMC, so a read of a never-written field makes the harness assertions on it fail"],
             "explanation": "every early-return path of the layered read with a failure injected at a chosen consulted file, plus API histories, under CBMC's leak / double-free / use-after-free checks"}
